@@ -14,10 +14,9 @@ PROP = {'module': 'GolibsVerif.Theorems.C01',
              'documented preconditions are respected by the argument generator: non-nil pointers, initialised DefaultStorage, '
              'AddrFamily in {IPv4, IPv6}'],
  'assumptions': ['functions whose only hazard is a documented-precondition panic (IPToAddr family argument) are total under that precondition',
-                 'entries in `pending` (hostsfile.Parse, Record.UnmarshalText, the four ARPA functions, IPNetToPrefix*) have tied models '
-                 'but their totality theorems live in / are awaited from the C04, C05, C07, C12 developments'],
+                 'entries in `pending` (IPNetToPrefix, IPNetToPrefixNoMapped) have tied models (C12) but no totality theorem restated here'],
  'level_text': 'a regenerated inventory of every exported input-consuming function with its hazard sites, a kernel-checked coverage '
                'obligation over that table, and totality theorems (never a Go panic, loops terminate) about the models of the '
                'hazard-bearing functions; every inventory function is also fuzzed through reflection on every run',
- 'level_note': 'PARTIAL: inventory_covered_partial allows a `pending` list (8 entries) whose totality theorems are not yet restated '
-               'here; trusted: Lean kernel, the inventory translator, the per-property correspondence checks that tie each model'}
+ 'level_note': 'PARTIAL: inventory_covered_partial allows a `pending` list (2 entries: IPNetToPrefix, IPNetToPrefixNoMapped, whose only hazard is the '
+               'documented-precondition panic of IPToAddr on an invalid address family); trusted: Lean kernel, the inventory translator, the per-property correspondence checks that tie each model'}
